@@ -31,7 +31,7 @@ func writeAll(w wl.Workload) []byte {
 		return []byte("ERR:" + err.Error())
 	}
 	for _, c := range w.Calls {
-		run.Apply(writer, c)
+		run.Apply(writer, c, w.Cfg.CRC)
 	}
 	return buf.Bytes()
 }
@@ -225,7 +225,7 @@ func drun(args []string) error {
 					ok = false
 					break
 				}
-				run.Apply(writers[i], wls[i].Calls[next[i]])
+				run.Apply(writers[i], wls[i].Calls[next[i]], wls[i].Cfg.CRC)
 				next[i]++
 				if next[i] == len(wls[i].Calls) {
 					lastDone = bufs[i].Bytes()
